@@ -107,6 +107,8 @@ class LinesearchSolver(NonlinearSolver):
         """
         super()._setup_solvers(system, depth)
         if system._has_bounds:
+            # start from scratch so that bounds removed since a previous setup do not linger
+            self._lower_bounds = self._upper_bounds = None
             abs2meta_out = system._var_abs2meta['output']
             start = end = 0
             for abs_name, val in system._outputs._abs_item_iter():
@@ -127,19 +129,25 @@ class LinesearchSolver(NonlinearSolver):
                 if not np.isscalar(ref):
                     ref = ref.ravel()
 
-                if var_lower is not None:
+                # Bounds in the scaled space. Where ref < ref0 the scaling reverses the ordering,
+                # so the scaled lower bound comes from the upper bound and vice versa.
+                size = end - start
+                lower = np.full(size, -np.inf) if var_lower is None else np.ravel(var_lower)
+                upper = np.full(size, np.inf) if var_upper is None else np.ravel(var_upper)
+                bound1 = (lower - ref0) / (ref - ref0)
+                bound2 = (upper - ref0) / (ref - ref0)
+                scaled_lower = np.minimum(bound1, bound2)
+                scaled_upper = np.maximum(bound1, bound2)
+
+                if np.any(scaled_lower != -np.inf):
                     if self._lower_bounds is None:
                         self._lower_bounds = np.full(len(system._outputs), -np.inf)
-                    if not np.isscalar(var_lower):
-                        var_lower = var_lower.ravel()
-                    self._lower_bounds[start:end] = (var_lower - ref0) / (ref - ref0)
+                    self._lower_bounds[start:end] = scaled_lower
 
-                if var_upper is not None:
+                if np.any(scaled_upper != np.inf):
                     if self._upper_bounds is None:
                         self._upper_bounds = np.full(len(system._outputs), np.inf)
-                    if not np.isscalar(var_upper):
-                        var_upper = var_upper.ravel()
-                    self._upper_bounds[start:end] = (var_upper - ref0) / (ref - ref0)
+                    self._upper_bounds[start:end] = scaled_upper
 
                 start = end
         else:
